@@ -85,18 +85,28 @@ def _run(cmd, cwd=None, timeout=600, env=None):
         return 124, 'TIMEOUT after %ss\n%s' % (timeout, (e.stdout or b'').decode('utf8', 'replace') if isinstance(e.stdout, bytes) else (e.stdout or ''))
 
 
-def source_gate():
-    """grep gate over the whole development (DESIGN §5)"""
+def source_gate(only_integrated=False, files=None):
+    """grep gate over the development (DESIGN §5): the given theories-relative files, or every .v file"""
     bad = []
-    for root, _, files in os.walk(os.path.join(COQ, 'theories')):
-        for f in files:
-            if not f.endswith('.v'):
-                continue
-            p = os.path.join(root, f)
-            txt = open(p).read()
-            txt_nc = re.sub(r'\(\*.*?\*\)', '', txt, flags=re.S)
-            for m in FORBIDDEN.finditer(txt_nc):
-                bad.append('%s: %s' % (os.path.relpath(p, COQ), m.group(0)))
+    paths = []
+    if files is not None:
+        paths = [os.path.join(COQ, 'theories', f) for f in files]
+    else:
+        for root, _, fs in os.walk(os.path.join(COQ, 'theories')):
+            paths += [os.path.join(root, f) for f in fs if f.endswith('.v')]
+        if only_integrated:
+            ids = open(os.path.join(VERIF, 'harness', 'integrated.txt')).read().split()
+            seeds = ['Props/%s.v' % i for i in ids]
+            # Obs encoders are reached through the harness imports, not through Props: include every Model file
+            # imported by an integrated check is done by the caller of coq_build; here: closure of Props + all Model/*Obs.v
+            paths = [os.path.join(COQ, 'theories', f) for f in _closure(seeds)]
+    for p in paths:
+        if not os.path.exists(p):
+            continue
+        txt = open(p).read()
+        txt_nc = re.sub(r'\(\*.*?\*\)', '', txt, flags=re.S)
+        for m in FORBIDDEN.finditer(txt_nc):
+            bad.append('%s: %s' % (os.path.relpath(p, COQ), m.group(0)))
     return bad
 
 
@@ -439,7 +449,7 @@ def main(prop, argv=None):
 
     # 1. proofs ------------------------------------------------------------------
     broken = []        # descriptions of broken proof obligations / correspondence
-    gate = source_gate()
+    gate = source_gate(files=_closure(([prop.props_file] if prop.props_file else []) + [m.replace('.', '/') + '.v' for m in prop.imports]))
     if gate:
         broken.append('source gate: ' + '; '.join(gate))
     targets = None
